@@ -6,7 +6,14 @@
 //! when pause i is reached; detached continuations are allowed to finish; afterwards the rest of
 //! the history (further rounds, further sessions) is run against the from-scratch oracle, the
 //! panic hook is consulted, termination is watched, the engine is shut down.  The same with every
-//! executor in turn as the panicking one.  Every case runs in a child process (an abort inside
+//! executor in turn as the panicking one.  Round targets are cut / made to panic a second time
+//! with OTHER CALLERS IN FLIGHT (`waiters`, `panicw`): when the cut point (the `x.before` of the
+//! panicking executor) is reached, further tasks are started that ask for the same roots, for a
+//! key whose computing entry the target owns, for a dependent of such a key, for an owned
+//! firewall; they run until they are parked on the target's entries (`computing_lock_guard`'s
+//! occupied branch, `exit_scc`); then the target is dropped (the gate opened); each of them must
+//! complete - woken by the drop glue of the target's `ComputingLockGuard`s - with the
+//! from-scratch value.  Every case runs in a child process (an abort inside
 //! `WriteBatch::drop`, or a synchronous hang, is observed by the parent, not suffered).
 //!
 //! Variants: `mem` = `InMemoryStorageEngine`; `db` = `DbBacked<MemKv>` (write-behind pipeline;
@@ -152,7 +159,8 @@ impl KvDatabaseFactory for MemKvFactory {
 // the sink: pause numbering, the cut gate, resource accounting from the emitted events
 // ------------------------------------------------------------------------------------------------
 #[derive(Clone, Debug, PartialEq)]
-enum Mode { Off, Count, Cut(u64), CutLabel(String, u64) }
+enum Mode { Off, Count, Cut(u64), CutLabel(String, u64), /// gate (not necessarily cut) at the first pause with this label and key
+    GateKey(String, u32) }
 
 struct SinkState {
     mode: Mode,
@@ -180,6 +188,11 @@ struct SinkState {
     /// tasks that took the backward-projection lock and have not entered the guarded block yet / that created a batch there
     after_bplock: HashSet<u64>,
     unguarded_bp_batch: HashSet<u64>,
+    /// companion tasks (other callers in flight while the target's owner is cut) and the key each is parked on
+    companions: HashSet<u64>,
+    parked: BTreeMap<u64, u32>,
+    /// acquisition order of the computing entries that are held now
+    lock_order: Vec<u32>,
 }
 /// pause labels owned by this harness (other properties' pause points are passed through untouched)
 const MY_PAUSES: &[&str] = &["q.registered", "q.loop", "q.tfc.before", "q.tfc.after", "q.wg.before", "q.wg.after", "q.processed", "r.check", "r.checked", "r.recompute", "tfc.item",
@@ -192,7 +205,7 @@ fn cur_tid(st: &mut SinkState) -> u64 {
 impl Default for SinkState {
     fn default() -> Self {
         SinkState { mode: Mode::Off, count: 0, labels: vec![], reached: None, released: false, gate_waker: None, locks: BTreeMap::new(), bplocks: BTreeMap::new(), armed: vec![],
-            batch_new: 0, batch_submit: 0, guard_enter: 0, guard_exit: 0, guard_detach: 0, epoch_bumps: 0, trace: vec![], trace_on: false, tids: HashMap::new(), completed: vec![], dropping: None, after_bplock: HashSet::new(), unguarded_bp_batch: HashSet::new() }
+            batch_new: 0, batch_submit: 0, guard_enter: 0, guard_exit: 0, guard_detach: 0, epoch_bumps: 0, trace: vec![], trace_on: false, tids: HashMap::new(), completed: vec![], dropping: None, after_bplock: HashSet::new(), unguarded_bp_batch: HashSet::new(), companions: HashSet::new(), parked: BTreeMap::new(), lock_order: vec![] }
     }
 }
 #[derive(Default)]
@@ -218,6 +231,10 @@ impl CutSink {
     fn reset(&self) { *self.st.lock().unwrap() = SinkState::default(); }
     fn set_mode(&self, m: Mode) { let mut st = self.st.lock().unwrap(); if m != Mode::Off { st.completed.clear(); } st.mode = m; st.count = 0; st.labels.clear(); }
     fn mark(&self, m: &str) { let mut st = self.st.lock().unwrap(); if st.trace_on { st.trace.push(m.to_string()); } }
+    /// called by a companion task from inside itself
+    fn mark_companion(&self) { let mut st = self.st.lock().unwrap(); let t = cur_tid(&mut st); st.companions.insert(t); if st.trace_on { st.trace.push(format!("{t} companion")); } }
+    fn held_keys(&self) -> Vec<u32> { self.st.lock().unwrap().lock_order.clone() }
+    fn parked_now(&self) -> Vec<(u64, u32)> { self.st.lock().unwrap().parked.iter().map(|(a, b)| (*a, *b)).collect() }
     fn release(&self) { let w = { let mut st = self.st.lock().unwrap(); st.released = true; st.gate_waker.take() }; if let Some(w) = w { w.wake(); } }
     fn quiescence(&self) -> Vec<String> {
         let st = self.st.lock().unwrap();
@@ -251,8 +268,10 @@ impl Sink for SinkHandle {
         let k = s.key_of(id);
         let mut st = s.st.lock().unwrap();
         match label {
-            "lock" => { *st.locks.entry(k.unwrap_or(u32::MAX)).or_insert(0) += 1; }
-            "unlock" => { *st.locks.entry(k.unwrap_or(u32::MAX)).or_insert(0) -= 1; if st.dropping == k { st.dropping = None; } else if let Some(k) = k { st.completed.push(k); } }
+            "lock" => { *st.locks.entry(k.unwrap_or(u32::MAX)).or_insert(0) += 1; if let Some(k) = k { st.lock_order.push(k); } }
+            "cl.wait" => { let t = cur_tid(&mut st); if !st.companions.contains(&t) { return; } st.parked.insert(t, k.unwrap_or(u32::MAX)); }
+            "cl.woken" => { let t = cur_tid(&mut st); if st.parked.remove(&t).is_none() { return; } }
+            "unlock" => { if let Some(k) = k { if let Some(p) = st.lock_order.iter().rposition(|x| *x == k) { st.lock_order.remove(p); } } *st.locks.entry(k.unwrap_or(u32::MAX)).or_insert(0) -= 1; if st.dropping == k { st.dropping = None; } else if let Some(k) = k { st.completed.push(k); } }
             "bplock" => { *st.bplocks.entry(k.unwrap_or(u32::MAX)).or_insert(0) += 1; let t = cur_tid(&mut st); st.after_bplock.insert(t); }
             "bpunlock" => { *st.bplocks.entry(k.unwrap_or(u32::MAX)).or_insert(0) -= 1; }
             "reg" => { let c = s.low.read().unwrap().get(&n).copied().unwrap_or(u32::MAX); st.armed.push((c, k.unwrap_or(u32::MAX))); }
@@ -282,6 +301,8 @@ impl Sink for SinkHandle {
                 "guard.detach" => format!("{tid} gdetach"),
                 "epoch.bump" => format!("{tid} bump"),
                 "is.acq" => format!("{tid} acq"),
+                "cl.wait" => format!("{tid} wait {ks}"),
+                "cl.woken" => format!("{tid} woken {ks}"),
                 _ => return,
             };
             st.trace.push(line);
@@ -305,6 +326,14 @@ impl Sink for SinkHandle {
                         s.notify.notify_one();
                         return Box::pin(Gate(s.clone()));
                     }
+                }
+            }
+            Mode::GateKey(l, key) => {
+                if l == label && k == Some(key) && st.reached.is_none() {
+                    st.reached = Some(format!("{label}@{key}"));
+                    drop(st);
+                    s.notify.notify_one();
+                    return Box::pin(Gate(s.clone()));
                 }
             }
             Mode::Cut(i) => {
@@ -398,28 +427,35 @@ enum Fault {
     Count,
     /// drop the target's in-flight call when pause i is reached. hold = keep a guarded continuation suspended
     /// at the cut point until one further session has been committed (only meaningful inside guarded sections)
-    Cut { i: u64, hold: bool, commit_after: bool, requery: bool },
+    /// waiters = when the cut point is reached, other callers are started that ask for the same roots / for keys whose
+    /// computing entries the target owns / for dependents of those, and are given the time to park on the target's
+    /// entries; only then is the target dropped.  Every one of them has to complete with the from-scratch value.
+    Cut { i: u64, hold: bool, commit_after: bool, requery: bool, waiters: bool },
     /// the same, addressed by pause label and occurrence (stable under renumbering; used by the corpus)
-    CutAt { label: String, occ: u64, hold: bool, commit_after: bool, requery: bool },
+    CutAt { label: String, occ: u64, hold: bool, commit_after: bool, requery: bool, waiters: bool },
     /// the executor of this key panics during the target round
     Panic(u32),
+    /// the same with waiters parked on the entries of the panicking task (started when it is about to call the executor)
+    PanicW(u32),
 }
 impl Fault {
     fn is_cut(&self) -> bool { matches!(self, Fault::Cut { .. } | Fault::CutAt { .. }) }
     fn hold(&self) -> bool { matches!(self, Fault::Cut { hold: true, .. } | Fault::CutAt { hold: true, .. }) }
     /// the cut-short round is issued again while the detached continuation is still suspended (it has to wait for it)
     fn requery(&self) -> bool { matches!(self, Fault::Cut { requery: true, .. } | Fault::CutAt { requery: true, .. }) }
-    fn mode_word(hold: bool, requery: bool) -> &'static str { if requery { "requery" } else if hold { "hold" } else { "settle" } }
+    fn waiters(&self) -> bool { matches!(self, Fault::Cut { waiters: true, .. } | Fault::CutAt { waiters: true, .. } | Fault::PanicW(_)) }
+    fn mode_word(hold: bool, requery: bool, waiters: bool) -> &'static str { if waiters { "waiters" } else if requery { "requery" } else if hold { "hold" } else { "settle" } }
     fn commit_after(&self) -> bool { match self { Fault::Cut { commit_after, .. } | Fault::CutAt { commit_after, .. } => *commit_after, _ => true } }
-    fn mode(&self) -> Mode { match self { Fault::Cut { i, .. } => Mode::Cut(*i), Fault::CutAt { label, occ, .. } => Mode::CutLabel(label.clone(), *occ), _ => Mode::Count } }
+    fn mode(&self) -> Mode { match self { Fault::Cut { i, .. } => Mode::Cut(*i), Fault::CutAt { label, occ, .. } => Mode::CutLabel(label.clone(), *occ), Fault::PanicW(k) => Mode::GateKey("x.before".into(), *k), _ => Mode::Count } }
     fn render(&self) -> String {
-        match self { Fault::Count => "count".into(), Fault::Cut { i, hold, commit_after, requery } => format!("cut {i} {} {}", Fault::mode_word(*hold, *requery), if *commit_after { "commit" } else { "dropsession" }),
-            Fault::CutAt { label, occ, hold, commit_after, requery } => format!("cutat {label} {occ} {} {}", Fault::mode_word(*hold, *requery), if *commit_after { "commit" } else { "dropsession" }), Fault::Panic(k) => format!("panic {k}") }
+        match self { Fault::Count => "count".into(), Fault::Cut { i, hold, commit_after, requery, waiters } => format!("cut {i} {} {}", Fault::mode_word(*hold, *requery, *waiters), if *commit_after { "commit" } else { "dropsession" }),
+            Fault::CutAt { label, occ, hold, commit_after, requery, waiters } => format!("cutat {label} {occ} {} {}", Fault::mode_word(*hold, *requery, *waiters), if *commit_after { "commit" } else { "dropsession" }),
+            Fault::Panic(k) => format!("panic {k}"), Fault::PanicW(k) => format!("panicw {k}") }
     }
     fn parse(t: &[&str]) -> Fault {
-        match t[0] { "count" => Fault::Count, "cut" => Fault::Cut { i: t[1].parse().unwrap(), hold: t[2] == "hold" || t[2] == "requery", requery: t[2] == "requery", commit_after: t.get(3).map(|x| *x == "commit").unwrap_or(true) },
-            "cutat" => Fault::CutAt { label: t[1].to_string(), occ: t[2].parse().unwrap(), hold: t[3] == "hold" || t[3] == "requery", requery: t[3] == "requery", commit_after: t.get(4).map(|x| *x == "commit").unwrap_or(true) },
-            "panic" => Fault::Panic(t[1].parse().unwrap()), x => panic!("fault {x}") }
+        match t[0] { "count" => Fault::Count, "cut" => Fault::Cut { i: t[1].parse().unwrap(), hold: t[2] == "hold" || t[2] == "requery", requery: t[2] == "requery", waiters: t[2] == "waiters", commit_after: t.get(3).map(|x| *x == "commit").unwrap_or(true) },
+            "cutat" => Fault::CutAt { label: t[1].to_string(), occ: t[2].parse().unwrap(), hold: t[3] == "hold" || t[3] == "requery", requery: t[3] == "requery", waiters: t[3] == "waiters", commit_after: t.get(4).map(|x| *x == "commit").unwrap_or(true) },
+            "panic" => Fault::Panic(t[1].parse().unwrap()), "panicw" => Fault::PanicW(t[1].parse().unwrap()), x => panic!("fault {x}") }
     }
 }
 
@@ -444,6 +480,8 @@ struct RunOut {
     cut_write: Option<Write>,
     /// what the engine itself answered last for every key (the persistence check compares the re-opened store with it)
     last_vals: BTreeMap<u32, i64>,
+    /// the computing entries the target owned when the companions were started
+    owned_at_gate: Vec<u32>,
 }
 
 enum Driven<T> { Done(T), Cut, Timeout }
@@ -475,6 +513,71 @@ async fn drive_soft<T>(fut: impl Future<Output = T>, held: bool, blocked: &mut b
     let mut fut = Box::pin(fut);
     let early = tokio::select! { biased; v = &mut fut => Some(v), _ = tokio::time::sleep(Duration::from_millis(60)) => None };
     match early { Some(v) => Driven::Done(v), None => { *blocked = true; sink().release(); drive(fut, false, drop_panic).await } }
+}
+
+/// another caller in flight while the owner of computing entries is cut / panics
+struct Comp { what: &'static str, keys: Vec<u32>, h: tokio::task::JoinHandle<Vec<i64>> }
+
+/// which other callers to start at the gate: (a) the same roots, (b) a key whose computing entry the target owns right
+/// now (parks in `computing_lock_guard`), (c) a dependent of such a key (takes its own entry, then parks in `exit_scc`
+/// on the shared callee), (d) a firewall the target is computing / repairing; started in a seeded order
+fn plan_companions(p: &Program, ks: &[u32], held: &[u32], rng: &mut Rng) -> Vec<(&'static str, Vec<u32>)> {
+    let mut v: Vec<(&'static str, Vec<u32>)> = vec![("same-roots", ks.to_vec())];
+    if !held.is_empty() {
+        let h = *rng.pick(held);
+        v.push(("owned-key", vec![h]));
+        let deps: Vec<u32> = (0..p.nodes.len() as u32).filter(|d| !held.contains(d) && !matches!(p.kind(*d), Kind::Input) && { let mut r = vec![]; p.nodes[*d as usize].expr.reads(&mut r); r.iter().any(|x| held.contains(x)) }).collect();
+        if !deps.is_empty() { v.push(("dependent-of-owned-key", vec![*rng.pick(&deps)])); }
+        if let Some(f) = held.iter().rev().find(|k| p.kind(**k) == Kind::Firewall && **k != h) { v.push(("owned-firewall", vec![*f])); }
+    }
+    rng.shuffle(&mut v);
+    v
+}
+fn spawn_companions<V: Variant>(engine: &Arc<Engine<V>>, sh: &Arc<Shared>, plan: Vec<(&'static str, Vec<u32>)>) -> Vec<Comp> {
+    plan.into_iter().map(|(what, keys)| {
+        let (e, sh2, ks) = (engine.clone(), sh.clone(), keys.clone());
+        let h = tokio::spawn(async move {
+            sink().mark_companion();
+            let te = e.tracked().await;
+            let mut vs = vec![];
+            for k in ks { vs.push(query_key(&sh2, &te, k).await); }
+            vs
+        });
+        Comp { what, keys, h }
+    }).collect()
+}
+
+/// polls `fut` until the sink's gate is reached; then `at_gate` starts the companions and they get the time to park on the
+/// entries `fut` owns; then `fut` is dropped (cut) or the gate is opened and `fut` awaited to its end
+async fn drive_gate<T>(fut: impl Future<Output = T>, cut: bool, at_gate: impl FnOnce() -> Vec<Comp>, drop_panic: &mut Option<String>) -> (Driven<T>, Vec<Comp>) {
+    let s = sink();
+    let mut fut = Box::pin(fut);
+    let r = tokio::time::timeout(Duration::from_millis(2500), async { tokio::select! { biased; v = &mut fut => Some(v), _ = s.notify.notified() => None } }).await;
+    match r {
+        Err(_) => { let _ = std::panic::catch_unwind(AssertUnwindSafe(move || drop(fut))); (Driven::Timeout, vec![]) }
+        Ok(Some(v)) => (Driven::Done(v), vec![]),
+        Ok(None) => {
+            let comps = at_gate();
+            for round in 0..5 {
+                for _ in 0..32 { tokio::task::yield_now().await; }
+                let parked = s.parked_now().len();
+                let finished = comps.iter().filter(|c| c.h.is_finished()).count();
+                if parked + finished >= comps.len() { break; }
+                if round < 4 { tokio::time::sleep(Duration::from_millis(1)).await; }
+            }
+            if cut {
+                if let Err(p) = std::panic::catch_unwind(AssertUnwindSafe(move || drop(fut))) { *drop_panic = Some(payload_str(&p)); }
+                s.mark("0 dropped");
+                (Driven::Cut, comps)
+            } else {
+                s.release();
+                match tokio::time::timeout(Duration::from_millis(2500), &mut fut).await {
+                    Ok(v) => (Driven::Done(v), comps),
+                    Err(_) => { let _ = std::panic::catch_unwind(AssertUnwindSafe(move || drop(fut))); (Driven::Timeout, comps) }
+                }
+            }
+        }
+    }
 }
 
 async fn settle() {
@@ -511,6 +614,32 @@ impl<'a> Judge<'a> {
 }
 
 fn all_keys_round(p: &Program) -> Vec<u32> { (0..p.nodes.len() as u32).rev().collect() }
+
+/// every caller that was in flight when the owner of the entries was cut / panicked has to complete: with the from-scratch
+/// value, or (panic run) with the injected panic.  false = one of them hangs.
+async fn join_companions(comps: Vec<Comp>, j: &mut Judge<'_>, idx: usize, panic_run: bool, out: &mut RunOut) -> bool {
+    let mut all = true;
+    let deadline = tokio::time::Instant::now() + Duration::from_millis(2500);
+    for mut c in comps {
+        match tokio::time::timeout_at(deadline, &mut c.h).await {
+            Ok(Ok(vs)) => { for (k, v) in c.keys.iter().zip(vs) { let exp = j.expected(*k); if v != exp { out.mismatches.push((idx, *k, v.to_string(), exp)); } } }
+            Ok(Err(je)) => {
+                let m = if je.is_panic() { payload_str(&je.into_panic()) } else { "cancelled".to_string() };
+                if !(panic_run && (m.contains("injected executor panic") || m.contains("JoinError"))) { out.fails.push(("C05:later-panic:waiter".into(), format!("op {idx}: the caller in flight ({}, keys {:?}) panicked: {}", c.what, c.keys, m.chars().take(160).collect::<String>()))); }
+            }
+            Err(_) => {
+                c.h.abort();
+                let parked: Vec<String> = sink().parked_now().iter().map(|(_, k)| *k).collect::<BTreeSet<u32>>().iter().map(|k| k.to_string()).collect();
+                let lab = out.cut_label.clone().unwrap_or_default();
+                out.fails.push(("C05:hang:waiter".into(), format!("op {idx}: a second caller ({}, keys {:?}) was in flight and parked on a computing entry of the target (entries owned then: {:?}) when the target {} at {lab}; it was never cancelled itself but never completed{}",
+                    c.what, c.keys, out.owned_at_gate, if panic_run { "unwound with the executor's panic" } else { "was dropped" },
+                    if parked.is_empty() { String::new() } else { format!(" (callers still parked on the entry of key(s) [{}]: the entry went away without its waiters being woken)", parked.join(",")) })));
+                all = false;
+            }
+        }
+    }
+    all
+}
 
 /// Runs the history with one fault at the target op.  All awaits on the engine go through `drive` (timeouts = hang).
 async fn run_fault<V: Variant>(case: &Case, target: usize, fault: &Fault, kv: &MemKv, trace_on: bool) -> RunOut {
@@ -610,7 +739,13 @@ async fn run_fault<V: Variant>(case: &Case, target: usize, fault: &Fault, kv: &M
                 s.set_mode(fault.mode());
                 let sh2 = sh.clone();
                 let te2 = &te;
-                let r = drive(async move { let mut vs = vec![]; for k in ks { vs.push(query_key(&sh2, te2, *k).await); } vs }, cutting, &mut drop_panic).await;
+                let mut comps: Vec<Comp> = vec![];
+                let r = if cutting && fault.waiters() {
+                    let mut crng = Rng::new(0xC05 ^ (idx as u64) << 20 ^ match fault { Fault::Cut { i, .. } => *i, Fault::CutAt { occ, .. } => *occ, _ => 0 });
+                    let (r, c) = drive_gate(async move { let mut vs = vec![]; for k in ks { vs.push(query_key(&sh2, te2, *k).await); } vs }, true,
+                        || { let held = s.held_keys(); out.owned_at_gate = held.clone(); spawn_companions::<V>(&engine, &sh, plan_companions(p, ks, &held, &mut crng)) }, &mut drop_panic).await;
+                    comps = c; r
+                } else { drive(async move { let mut vs = vec![]; for k in ks { vs.push(query_key(&sh2, te2, *k).await); } vs }, cutting, &mut drop_panic).await };
                 out.pauses = s.st.lock().unwrap().labels.clone();
                 out.cut_label = s.st.lock().unwrap().reached.clone();
                 out.completed_before_cut = s.st.lock().unwrap().completed.clone();
@@ -638,8 +773,9 @@ async fn run_fault<V: Variant>(case: &Case, target: usize, fault: &Fault, kv: &M
                         } else if hold { held = true; out.held_mode = true; for _ in 0..8 { tokio::task::yield_now().await; } } else { s.release(); settle().await; }
                     }
                 }
+                if !join_companions(comps, &mut j, idx, false, &mut out).await { hang = true; }
             }
-            (Op::Round(ks), Fault::Panic(pk)) => {
+            (Op::Round(ks), Fault::Panic(pk)) | (Op::Round(ks), Fault::PanicW(pk)) => {
                 ok = probe(&engine, &sh, &mut j, idx, &mut out).await;
                 if !ok { break; }
                 let te = engine.clone().tracked().await;
@@ -647,7 +783,16 @@ async fn run_fault<V: Variant>(case: &Case, target: usize, fault: &Fault, kv: &M
                 let _ = take_panics();
                 let sh2 = sh.clone();
                 let te2 = &te;
-                let r = drive(AssertUnwindSafe(async move { let mut vs = vec![]; for k in ks { vs.push(query_key(&sh2, te2, *k).await); } vs }).catch_unwind(), false, &mut drop_panic).await;
+                let mut comps: Vec<Comp> = vec![];
+                let r = if fault.waiters() {
+                    s.set_mode(fault.mode());
+                    let mut crng = Rng::new(0xC05 ^ (idx as u64) << 20 ^ (*pk as u64) << 8);
+                    let (r, c) = drive_gate(AssertUnwindSafe(async move { let mut vs = vec![]; for k in ks { vs.push(query_key(&sh2, te2, *k).await); } vs }).catch_unwind(), false,
+                        || { let held = s.held_keys(); out.owned_at_gate = held.clone(); spawn_companions::<V>(&engine, &sh, plan_companions(p, ks, &held, &mut crng)) }, &mut drop_panic).await;
+                    s.set_mode(Mode::Off);
+                    s.release();
+                    comps = c; r
+                } else { drive(AssertUnwindSafe(async move { let mut vs = vec![]; for k in ks { vs.push(query_key(&sh2, te2, *k).await); } vs }).catch_unwind(), false, &mut drop_panic).await };
                 *sh.panic_key.lock().unwrap() = None;
                 let ran = sh.log.lock().unwrap().iter().any(|e| e.key == *pk);
                 match r {
@@ -661,6 +806,7 @@ async fn run_fault<V: Variant>(case: &Case, target: usize, fault: &Fault, kv: &M
                 }
                 drop(te);
                 settle().await;
+                if !join_companions(comps, &mut j, idx, true, &mut out).await { hang = true; }
                 let hooks = take_panics();
                 for h in hooks { if !(h.contains("injected executor panic") || h.contains("JoinError")) { fail!("C05:later-panic", "op {idx}: additional panic while the injected one propagated: {h}"); } }
             }
@@ -759,7 +905,7 @@ async fn run_fault<V: Variant>(case: &Case, target: usize, fault: &Fault, kv: &M
     settle().await;
     s.mark(&format!("0 end\t{}", s.model_summary()));
     for h in take_panics() {
-        if matches!(fault, Fault::Panic(_)) && (h.contains("injected executor panic") || h.contains("JoinError")) { continue; }
+        if matches!(fault, Fault::Panic(_) | Fault::PanicW(_)) && (h.contains("injected executor panic") || h.contains("JoinError")) { continue; }
         if h.contains("InputSession transaction has already been committed") {
             fail!("C05:later-panic:set-input-after-commit", "panic hook: {h}");
             // the guarded continuation died with that panic: its `guarded(entered != completed)` entry has the same cause
@@ -877,7 +1023,7 @@ fn is_guarded_label(l: &str) -> bool {
     b.starts_with("x.g.") || b.starts_with("sc.") || b.starts_with("c.g.") || b.starts_with("cq.") || b == "p.after" || b.starts_with("bp.g.") || b.starts_with("in.set.g") || b.starts_with("in.ref.g") || b.starts_with("in.commit") || b.starts_with("si.")
 }
 
-fn child_case<V: Variant>(case: &Case, max_cuts: u64, seed: u64, only: Option<(usize, Fault)>, resume_after: Option<String>, trace_every: u64) {
+fn child_case<V: Variant>(case: &Case, max_cuts: u64, seed: u64, only: Option<(usize, Fault)>, resume_after: Option<String>, trace_every: u64, max_hangs: u64) {
     use std::io::Write as _;
     let so = std::io::stdout();
     let emit = |l: String| { let mut o = so.lock(); writeln!(o, "{l}").unwrap(); o.flush().unwrap(); };
@@ -896,17 +1042,21 @@ fn child_case<V: Variant>(case: &Case, max_cuts: u64, seed: u64, only: Option<(u
         for m in &base.mismatches { emit(format!("B C01:value\top {} key {} got {} expected {}", m.0, m.1, m.2, m.3)); }
     }
     let mut run_no: u64 = 0;
+    // every hang costs its watchdog time: a case in which the engine hung `max_hangs` times is abandoned (reported `K`)
+    let mut hangs: u64 = 0;
     let mut one = |t: usize, f: &Fault, expect_label: Option<&str>, skipping: &mut bool| {
         run_no += 1;
         let tag = format!("{} {}", t, f.render());
         if *skipping { if resume_after.as_deref() == Some(tag.as_str()) { *skipping = false; } return; }
-        let plabel: String = match (expect_label, f) { (Some(l), _) => l.to_string(), (None, Fault::CutAt { label, .. }) => label.clone(), (None, Fault::Panic(k)) => format!("panic@{k}"), _ => "-".into() };
+        if hangs >= max_hangs { if hangs == max_hangs { hangs += 1; emit(format!("K abandoned after {max_hangs} hangs")); } return; }
+        let plabel: String = match (expect_label, f) { (Some(l), _) => l.to_string(), (None, Fault::CutAt { label, .. }) => label.clone(), (None, Fault::Panic(k)) | (None, Fault::PanicW(k)) => format!("panic@{k}"), _ => "-".into() };
         emit(format!("P {tag}\t{plabel}"));
         // the model has one innermost frame per task: executors that read several callees concurrently inside one task
         // (unordered groups, `join_all`) are judged by the oracle only
         let traced = run_no % trace_every == 0 && !case.program.has_unordered();
         let o = run_blocking::<V>(case, t, f, traced);
         for (sig, d) in &o.fails { emit(format!("F {}\t{}\t{tag}", esc(sig), esc(d))); }
+        if o.fails.iter().any(|(sig, _)| sig.starts_with("C05:hang")) { hangs += 1; }
         // value failures of a settle run in a case whose own baseline is clean: is it the cut, or does the SAME history
         // without the cut (the target replaced by what of it took effect) fail the same way?  Then it is not a C05 failure.
         let mut equiv_mis: BTreeSet<(u32, String, i64)> = BTreeSet::new();
@@ -956,24 +1106,26 @@ fn child_case<V: Variant>(case: &Case, max_cuts: u64, seed: u64, only: Option<(u
         for i in cuts {
             let label = cnt.pauses[i as usize - 1].clone();
             let commit_after = rng.chance(1, 2);
-            one(t, &Fault::Cut { i, hold: false, commit_after, requery: false }, Some(&label), &mut skipping);
+            one(t, &Fault::Cut { i, hold: false, commit_after, requery: false, waiters: false }, Some(&label), &mut skipping);
+            // the same cut with other callers in flight that are parked on the entries the target owns at the cut
+            if let Op::Round(_) = &case.ops[t] { one(t, &Fault::Cut { i, hold: false, commit_after: true, requery: false, waiters: true }, Some(&label), &mut skipping); }
             // the adversarial twin: a guarded continuation stays suspended (it is a spawned task that has not been
             // scheduled yet) while the caller goes on: across the next committed session (round target), or across
             // the commit of the same session (session-call target)
             if is_guarded_label(&label) {
                 match &case.ops[t] {
                     Op::Round(_) => {
-                        if next_is_session { one(t, &Fault::Cut { i, hold: true, commit_after: true, requery: false }, Some(&label), &mut skipping); }
-                        one(t, &Fault::Cut { i, hold: true, commit_after: true, requery: true }, Some(&label), &mut skipping);
+                        if next_is_session { one(t, &Fault::Cut { i, hold: true, commit_after: true, requery: false, waiters: false }, Some(&label), &mut skipping); }
+                        one(t, &Fault::Cut { i, hold: true, commit_after: true, requery: true, waiters: false }, Some(&label), &mut skipping);
                     }
-                    Op::Session(_) if !label.starts_with("in.commit") => one(t, &Fault::Cut { i, hold: true, commit_after: true, requery: false }, Some(&label), &mut skipping),
+                    Op::Session(_) if !label.starts_with("in.commit") => one(t, &Fault::Cut { i, hold: true, commit_after: true, requery: false, waiters: false }, Some(&label), &mut skipping),
                     _ => {}
                 }
             }
         }
         if let Op::Round(_) = &case.ops[t] {
             let mut ks: Vec<u32> = cnt.execs_in_target.clone(); ks.sort(); ks.dedup();
-            for k in ks { one(t, &Fault::Panic(k), None, &mut skipping); }
+            for k in ks { one(t, &Fault::Panic(k), None, &mut skipping); one(t, &Fault::PanicW(k), None, &mut skipping); }
         }
     }
     emit("E".into());
@@ -1027,7 +1179,8 @@ fn main() {
         let only = flag("--fault").map(|f| { let t: Vec<&str> = f.split_whitespace().collect(); (t[0].parse::<usize>().unwrap(), Fault::parse(&t[1..])) });
         let resume = flag("--resume-after");
         let te: u64 = flag("--trace-every").map(|x| x.parse().unwrap()).unwrap_or(1).max(1);
-        if variant == "db" { child_case::<DbCfg>(&case, max_cuts, a.seed, only, resume, te); } else { child_case::<MemCfg>(&case, max_cuts, a.seed, only, resume, te); }
+        let mh: u64 = flag("--max-hangs").map(|x| x.parse().unwrap()).unwrap_or(3).max(1);
+        if variant == "db" { child_case::<DbCfg>(&case, max_cuts, a.seed, only, resume, te, mh); } else { child_case::<MemCfg>(&case, max_cuts, a.seed, only, resume, te, mh); }
         return;
     }
     parent(a);
@@ -1038,13 +1191,14 @@ fn main() {
 // ------------------------------------------------------------------------------------------------
 struct Failure { sig: String, desc: String, case: String }
 
-fn run_child(exe: &std::path::Path, case_file: &str, variant: &str, max_cuts: u64, seed: u64, fault: Option<&str>, resume: Option<&str>, trace_every: u64, timeout: Duration) -> (Vec<String>, Option<String>) {
+fn run_child(exe: &std::path::Path, case_file: &str, variant: &str, max_cuts: u64, seed: u64, fault: Option<&str>, resume: Option<&str>, trace_every: u64, max_hangs: u64, timeout: Duration) -> (Vec<String>, Option<String>) {
     use std::io::{BufRead, BufReader};
     let mut cmd = std::process::Command::new(exe);
     cmd.args(["--child", case_file, "--variant", variant, "--max-cuts", &max_cuts.to_string(), "--seed", &seed.to_string()]);
     if let Some(f) = fault { cmd.args(["--fault", f]); }
     if let Some(r) = resume { cmd.args(["--resume-after", r]); }
     cmd.args(["--trace-every", &trace_every.to_string()]);
+    cmd.args(["--max-hangs", &max_hangs.to_string()]);
     cmd.stdout(std::process::Stdio::piped()).stderr(std::process::Stdio::piped());
     let mut ch = cmd.spawn().unwrap();
     let so = ch.stdout.take().unwrap();
@@ -1115,6 +1269,7 @@ fn parent(a: Args) {
     let mut label_hits: BTreeMap<String, u64> = BTreeMap::new();
     let mut samples: Vec<String> = vec![];
     let mut evals = 0u64;
+    let mut hang_failures = 0u64;
     let tmp = format!("{}/cases", a.out);
     std::fs::create_dir_all(&tmp).unwrap();
     for (ci, (name, case, fl)) in cases.iter().enumerate() {
@@ -1131,7 +1286,7 @@ fn parent(a: Args) {
             let mut resume: Option<String> = None;
             let mut restarts = 0;
             loop {
-            let (lines, died) = run_child(&exe, &cf, &v_use, max_cuts, a.seed.wrapping_add(ci as u64), fault_s.as_deref(), resume.as_deref(), if fault_s.is_some() { 1 } else { trace_every }, Duration::from_secs(if quick { 240 } else { 900 }));
+            let (lines, died) = run_child(&exe, &cf, &v_use, max_cuts, a.seed.wrapping_add(ci as u64), fault_s.as_deref(), resume.as_deref(), if fault_s.is_some() { 1 } else { trace_every }, if hang_failures >= 4 { 1 } else { 3 }, Duration::from_secs(if quick { 240 } else { 900 }));
             let mut last_p = String::new();
             let mut last_label = String::new();
             let mut last_run = String::new();
@@ -1148,7 +1303,7 @@ fn parent(a: Args) {
                     "R" => {
                         evals += 1;
                         let f: Vec<&str> = body.split('\t').collect();
-                        let kind = if f[0].contains("panic") { "panic" } else if f[0].contains("requery") { "cut-requery" } else if f[0].contains("hold") { "cut-hold" } else { "cut" };
+                        let kind = if f[0].contains("panicw") { "panic-with-waiters" } else if f[0].contains("panic") { "panic" } else if f[0].contains("waiters") { "cut-with-waiters" } else if f[0].contains("requery") { "cut-requery" } else if f[0].contains("hold") { "cut-hold" } else { "cut" };
                         *dist.entry(format!("{v_use}:runs_{kind}")).or_default() += 1;
                         let lab = f[1].split('@').next().unwrap().to_string();
                         *label_hits.entry(lab.clone()).or_default() += 1;
@@ -1160,6 +1315,7 @@ fn parent(a: Args) {
                         let f: Vec<&str> = body.split('\t').collect();
                         let replay = format!("#fault {v_use} {}\n{}", f.get(2).unwrap_or(&""), text);
                         *dist.entry(format!("fail:{}", f[0])).or_default() += 1;
+                        if f[0].starts_with("C05:hang") { hang_failures += 1; }
                         if failures.iter().filter(|x| x.sig == f[0]).count() < 3 { failures.push(Failure { sig: f[0].to_string(), desc: format!("[{name} {v_use}] {}", f[1]), case: replay }); }
                     }
                     "M" => { *dist.entry("value_failures_also_in_baseline".into()).or_default() += 1; }
@@ -1167,6 +1323,7 @@ fn parent(a: Args) {
                     "Q" => { *dist.entry("value_failures_also_in_the_equivalent_history_without_the_cut".into()).or_default() += 1; }
                     "B" => { *dist.entry("baseline_failures(other properties)".into()).or_default() += 1; }
                     "X" => { *dist.entry("cut_not_reached".into()).or_default() += 1; }
+                    "K" => { *dist.entry("cases_abandoned_after_repeated_hangs".into()).or_default() += 1; }
                     _ => {}
                 }
             }
@@ -1192,7 +1349,7 @@ fn parent(a: Args) {
     dist.insert("runs_with_trace_validation".into(), traced_runs);
     let mut rep = String::from("{");
     rep.push_str(&format!("\"evaluations\":{evals},\"distinct_nontrivial\":{},", distinct.len()));
-    rep.push_str(&format!("\"rule\":{},", jstr("one evaluation = one history replayed on a fresh engine with one fault (future dropped at pause point i of the target op, or one executor panicking), followed by the rest of the history, a final all-keys round, shutdown (db variant: re-open and query); non-trivial = the fault point was actually reached; distinct by hash of (case, variant, target, fault)")));
+    rep.push_str(&format!("\"rule\":{},", jstr("one evaluation = one history replayed on a fresh engine with one fault (future dropped at pause point i of the target op - alone, with a detached guarded continuation kept suspended, or with other callers parked on the target's computing entries - or one executor panicking, alone or with such parked callers), followed by the rest of the history, a final all-keys round, shutdown (db variant: re-open and query); non-trivial = the fault point was actually reached; distinct by hash of (case, variant, target, fault)")));
     rep.push_str(&format!("\"samples\":[{}],", samples.iter().map(|s| jstr(s)).collect::<Vec<_>>().join(",")));
     rep.push_str(&format!("\"distribution\":{{{}}},", dist.iter().map(|(k, v)| format!("{}:{}", jstr(k), v)).collect::<Vec<_>>().join(",")));
     rep.push_str(&format!("\"oracle_failures\":[{}]", failures.iter().map(|f| format!("{{\"sig\":{},\"desc\":{},\"case\":{}}}", jstr(&f.sig), jstr(&f.desc), jstr(&f.case))).collect::<Vec<_>>().join(",")));
